@@ -56,3 +56,37 @@ def C08():
 
 
 ALL["C08"] = C08
+
+
+def C13():
+    from . import r_reg, r_reg_sup
+    chk = Check("C13", "proof",
+                "R-REG: abstract evaluation of every method of Support (and the Grid accessors it uses) from the "
+                "extracted source over the finite domain of order/adjacency/wrap-around types of its integer "
+                "arguments, compared with specification functions written from the statement (hull, common grid "
+                "points, mutually inverse conversions, 'not contained' for every other index incl. 2^64-1)",
+                checker_cmd="bin/check C13 (bsv/interp.py over the statement trees of unit dbl_off / dbl_on)")
+    chk.trust("bsv-dump extraction (clang 14 AST)", "bsv/interp.py semantics of the C++ subset and its models of "
+              "std::vector/optional/shared_ptr/min/max/lower_bound", "the specification functions in bsv/r_reg_sup.py")
+    chk.assume("small-model argument: Support/Grid code only compares its integer inputs, takes min/max and adds or "
+               "subtracts them or 0/1/2 (checked: anything else leaves the fragment -> exit 2), so its behaviour "
+               "depends only on the order/adjacency/wrap type of {0,start,end,size,index}; every such type has a "
+               "representative with size<=nmax or at the top of the 64-bit range")
+    nmax = 7 if C.tier() == "thorough" else 5
+    names = ["dbl_off", "dbl_on"] if C.tier() == "thorough" else ["dbl_off"]
+    total = 0
+    for n in names:
+        u = F.load(n)
+        chk.units.append(n)
+        w = r_reg.World(u)
+        total += r_reg_sup.support_suite(chk, w, "R-REG.sup", nmax)
+        total += r_reg_sup.grid_suite(chk, w, "R-REG.grid", 3 if C.tier() == "quick" else 4)
+    chk.note("oracle_self_check_triples", r_reg_sup.check_oracle(6 if C.tier() == "thorough" else 5))
+    chk.note("regions_evaluated", total)
+    chk.note("grid_size_bound", nmax)
+    chk.exhaustive = True
+    chk.floor("R-REG.sup", chk.rules["R-REG.sup"]["instances"], 25, "(function, clause) obligations on Support")
+    return chk
+
+
+ALL["C13"] = C13
